@@ -2,8 +2,9 @@
 """regenerate MANIFEST.json from lean/props.json + manifest_meta.json (keeps it valid at all times)"""
 import json, os
 here = os.path.dirname(os.path.abspath(__file__))
-props = json.load(open(os.path.join(here, "lean", "props.json")))
-meta = json.load(open(os.path.join(here, "manifest_meta.json")))
+props = {fn[:-5]: json.load(open(os.path.join(here, "props", fn))) for fn in sorted(os.listdir(os.path.join(here, "props"))) if fn.endswith(".json")}
+meta = {"checks": {k: v["manifest"] for k, v in props.items() if v.get("claimed", True)}, "not_applicable": json.load(open(os.path.join(here, "not_applicable.json"))),
+        "notes": "See DESIGN.md. Every claimed check: Lean theorems (obligations in props/<id>.json, audited with #print axioms) + tie to /repo (translator and/or correspondence) + failing-input search when either breaks."}
 allp = [json.loads(l)["id"] for l in open(os.path.join(here, "properties.jsonl"))]
 checks = []
 for pid in allp:
